@@ -177,6 +177,7 @@ def run(case):
     probs = []
     nt = []
     ncomp = ntwin = bodies = accesses = pairs = 0
+    nperm_sets = norders = 0
     seen = set()
 
     def add(sig, msg):
@@ -252,8 +253,21 @@ def run(case):
                     add('conformance:twin-vs-compiled', f'{tag}: twin and compiled results differ')
             except Exception as e:
                 add('compiled:raises:' + type(e).__name__, f'{tag}: {e}')
+            # independence validated, not only inferred: for <= 3 bodies every execution order of the bodies is really run
+            if 2 <= nthread <= 3 and nperm_sets < 25 and N >= 2:
+                nperm_sets += 1
+                base = (np.asarray(out[0]).copy(), np.asarray(out[1]).copy(), None if out[2] is None else np.asarray(out[2]).copy())
+                for order in itertools.permutations(range(nthread)):
+                    rt.reset(nthreads=nthread, max_threads=64, order=list(order))
+                    o2 = T['f'](rt.track(pos0.copy(), 'pos'), npart, box, weights=None if w0 is None else rt.track(w0.copy(), 'weights'),
+                                coord=coord, nthread=nthread, sort=sort)
+                    norders += 1
+                    same = np.array_equal(np.asarray(o2[0]), base[0]) and np.array_equal(np.asarray(o2[1]), base[1]) and (base[2] is None or np.array_equal(np.asarray(o2[2]), base[2]))
+                    if not same:
+                        add('twin:body-order-changes-result', f'{tag}: executing the per-thread bodies in order {order} changes the result')
+                rt.reset(nthreads=nthread, max_threads=64)
         if nearb or len(set(xs)) < len(xs) or N < 12:
             nt.append((case['np'], case['coord'], case['dt'], case['wts'], case['sort'], case['box'], tuple(xs)))
     return dict(problems=probs, evals=ncomp + ntwin, nt=nt, states=max(bodies, 1), transitions=max(accesses, 1), traces=ntwin,
-                extra=dict(compiled_runs=ncomp, twin_runs=ntwin, body_pairs_checked=pairs),
+                extra=dict(compiled_runs=ncomp, twin_runs=ntwin, body_pairs_checked=pairs, permuted_order_runs=norders),
                 sample=dict(case=case, alphabet=alphabet(npart, box, dtype)) if npart == 3 and coord == 0 else None)
